@@ -675,9 +675,9 @@ def run(ctx):
         "chi-square p-values use scipy when importable, otherwise the Wilson-Hilferty approximation",
     ]
     q = ctx.quick()
-    plan = dict(sound=120 if q else 3000, repro=40 if q else 800, range=60 if q else 2000,
-                stat=2 if q else 20, struct=40 if q else 1500, backends=1 if q else 6, fresh=3 if q else 8)
-    k = 8 if q else 16
+    plan = dict(sound=200 if q else 3000, repro=60 if q else 800, range=100 if q else 2000,
+                stat=2 if q else 20, struct=80 if q else 1500, backends=1 if q else 6, fresh=3 if q else 8)
+    k = 16 if q else 16
     for r in pmap(shard, [(ctx.seed * 1000 + i, plan if i < 6 or not q else dict(plan, fresh=0, backends=0))
                           for i in range(k)]):
         ctx.stats.merge(r)
